@@ -17,20 +17,36 @@ func isMsgRequestPred(c *chk.Ctx, g *ssa.Function) bool {
 		return false
 	}
 	m, e, r, id := false, false, false, false
-	c.P.ExtInstrs(g, func(ins ssa.Instruction) {
-		if fa, ok := ins.(*ssa.FieldAddr); ok {
-			switch ir.FieldVar(fa) {
-			case c.M.JM:
-				m = true
-			case c.M.JE:
-				e = true
-			case c.M.JR:
-				r = true
-			case c.M.JID:
-				id = true
-			}
+	// the predicate itself and the message predicates it calls (which other predicates may
+	// share: hasReplyFields used by the parser as well)
+	seen := map[*ssa.Function]bool{}
+	var visit func(h *ssa.Function, depth int)
+	visit = func(h *ssa.Function, depth int) {
+		if h == nil || seen[h] || depth > 2 {
+			return
 		}
-	})
+		seen[h] = true
+		ir.Instrs(h, func(ins ssa.Instruction) {
+			if fa, ok := ins.(*ssa.FieldAddr); ok {
+				switch ir.FieldVar(fa) {
+				case c.M.JM:
+					m = true
+				case c.M.JE:
+					e = true
+				case c.M.JR:
+					r = true
+				case c.M.JID:
+					id = true
+				}
+			}
+			if call, ok := ins.(*ssa.Call); ok {
+				if k := call.Call.StaticCallee(); k != nil && ir.RecvNamed(k) == c.M.Jmessage && k.Signature.Results().Len() == 1 && k.Signature.Results().At(0).Type().String() == "bool" {
+					visit(k, depth+1)
+				}
+			}
+		})
+	}
+	visit(g, 0)
 	return m && e && r && !id
 }
 
